@@ -1,6 +1,6 @@
 (** Correspondence judges for C01 (Boolean operations) and C02 (Settle). *)
 From Coq Require Import ZArith List Bool.
-From CV Require Import Geom.Winding Bool.Region Bool.Sweep Bool.Check.
+From CV Require Import Geom.Winding Bool.Region Bool.Sweep Bool.Check Bool.MergeOrder.
 Import ListNotations.
 Open Scope Z_scope.
 
@@ -75,23 +75,6 @@ Record seqcase := mkSeq {
   qOp : Z; qRule : Z; qSegs : list sseg; qMerges : list Z;
   qFinal : list gout; qPrev : list Z }.       (* Go: fields and prev index (-1 = nil) of every segment afterwards *)
 
-(** specification of the column after every member of every bundle of coincident segments has been merged: the
-    surviving (not overlapped) segments carry the prefix sums of the contributions below them (the zeroed members
-    contribute nothing) and are in the result iff the region differs across them *)
-Fixpoint col_spec_ok_ov (below : list sseg) (col : list sseg) (op rule : Z) : bool :=
-  match col with
-  | [] => true
-  | s :: col' =>
-    (if sOverlapped s then true else
-     (lower_of false s =? total false below) && (lower_of true s =? total true below) &&
-     (if sOpen s || sVert s then true
-      else if op =? 5 then sIn s =? Z.b2z (fills rule (total false below)) + Z.b2z (fills rule (total false (s :: below)))
-      else sIn s =? (if Bool.eqb (bop op (fills rule (total false below)) (fills rule (total true below)))
-                                  (bop op (fills rule (total false (s :: below))) (fills rule (total true (s :: below))))
-                     then 0 else 1))) &&
-    col_spec_ok_ov (s :: below) col' op rule
-  end.
-
 (** every member of every bundle (maximal run of equal positions) occurs in the merge sequence *)
 Definition in_bundle (segs : list sseg) (k : nat) : bool :=
   match nth_error segs k with
@@ -115,7 +98,9 @@ Definition judge_seq (c : seqcase) : list Z :=
   let clean := forallb (fun s => negb (sVert s) && negb (sOpen s) && (sOSelf s =? 0)) (qSegs c) in
   let gsegs := map (fun so => with_out (fst so) (snd so)) (combine (qSegs c) (qFinal c)) in
   let spec := clean && all_merged (qSegs c) ks && negb (col_spec_ok_ov [] gsegs (qOp c) (qRule c)) in
-  [ (if tie1 then 1 else 0) + (if tie2 then 2 else 0) + (if spec then 4 else 0);
+  (* the scan form of the merge (Bool/MergeOrder.v), which the any-order theorems are about, against Go *)
+  let tie3 := negb (list_eqb gout_eqb (map out_of (mscan_seq m ks (qOp c) (qRule c))) (qFinal c)) in
+  [ (if tie1 then 1 else 0) + (if tie2 then 2 else 0) + (if spec then 4 else 0) + (if tie3 then 8 else 0);
     Z.of_nat (length (qSegs c)); Z.of_nat (length ks) ].
 
 (* ------------------------------------------------------------------ K2: end to end *)
